@@ -6,3 +6,6 @@ package gocql
 // verifPoint marks a named schedule-perturbation point. It does nothing unless the
 // package is built with the "verif" tag (see verif_on.go).
 func verifPoint(name string) {}
+
+// verifWrote reports what a connection writer told exec about one frame. No-op without the tag.
+func verifWrote(frame []byte, n int, err error) {}
